@@ -1151,6 +1151,12 @@ func (c *contextWriter) Run(ctx context.Context, input []byte) ([]byte, error) {
 		return nil, err
 	}
 
+	// only EVM.Call attaches the execution context; reached through CALLCODE,
+	// DELEGATECALL or STATICCALL there is no caller to attribute the write to
+	if c.ctx == nil {
+		return nil, errors.New("context write is only allowed through CALL")
+	}
+
 	if err := types.SetAspectContext(ctx, c.ctx.from, string(key), value); err != nil {
 		return nil, err
 	}
